@@ -8,8 +8,11 @@ TInit == l = 1 /\ bad = {}
 RangeS(q) == {q[i] : i \in 1..Len(q)}
 Checks(r) == {<<r.live = r.log, "LiveIsLog">>,
               <<r.late = r.log, "LateSubscriberIsLog">>,
-              \* after a restart with the last sidecar line cut short (crash after the log flush) the thread still reads as the log
-              <<r.has_fault => r.late_after_fault = r.log, "LateSubscriberAfterTornSidecarIsLog">>,
+              \* after a restart with a damaged sidecar (last line cut short = crash after the log flush; first / middle line lost;
+              \* last line twice; only the newest lines left) the thread still reads as the log
+              <<r.has_fault => r.late_after_fault = r.log, "LateSubscriberAfterSidecarFaultIsLog">>,
+              \* while a stream is idle in the middle of its life, what its live subscriber holds is in the log file (Replicas!NothingExtra at Quiet)
+              <<RangeS(r.quiet_live) \subseteq RangeS(r.quiet_log), "QuietLiveIsInLog">>,
               <<r.replayed = r.log, "ReplayedIsRawLog">>,
               <<r.has_sidecar => (IsPrefix(r.sidecar, r.log) /\ r.sidecar_settled => r.sidecar = r.log), "SidecarIsLog">>,
               <<r.has_snapshot => r.snapshot = r.log, "SnapshotIsLog">>,
